@@ -7,6 +7,7 @@ import (
 	publictypes "lunar/engine/streams/public-types"
 	"lunar/engine/streams/resources"
 	"lunar/engine/utils"
+	"lunar/toolkit-core/verifhook"
 
 	"github.com/rs/zerolog/log"
 )
@@ -39,6 +40,16 @@ func newFlowBuilder(filterTree internaltypes.FilterTreeI,
 
 // build function builds flows from provided FlowRepresentations.
 func (fb *flowBuilder) build() error {
+	if verifhook.Enabled {
+		// the simulation harness decides the (otherwise map-iteration) load order
+		names := make([]string, 0, len(fb.flowReps))
+		for name := range fb.flowReps {
+			names = append(names, name)
+		}
+		if order := verifhook.Order("flow.build", names); order != nil {
+			return fb.buildInOrder(order)
+		}
+	}
 	pendingFlows := make(map[string]struct{})
 	for _, flowRep := range fb.flowReps {
 		if flowRep == nil || flowRep.GetName() == "" {
@@ -52,6 +63,35 @@ func (fb *flowBuilder) build() error {
 
 	// try to build pending flows
 	for flowName := range pendingFlows {
+		flowRep, exists := fb.flowReps[flowName]
+		if !exists {
+			return fmt.Errorf("flow '%s' not found", flowName)
+		}
+		if err := fb.buildFlow(flowRep); err != nil {
+			return fmt.Errorf("failed to build flow %s: %w", flowName, err)
+		}
+	}
+	return nil
+}
+
+// buildInOrder is build() with the iteration order of both passes given by
+// the caller (simulation only): flows are tried in that order, the ones that
+// fail are retried in the same order.
+func (fb *flowBuilder) buildInOrder(order []string) error {
+	pendingFlows := []string{}
+	for _, flowName := range order {
+		flowRep, exists := fb.flowReps[flowName]
+		if !exists {
+			continue
+		}
+		if flowRep == nil || flowRep.GetName() == "" {
+			return fmt.Errorf("flow representation is invalid")
+		}
+		if err := fb.buildFlow(flowRep); err != nil {
+			pendingFlows = append(pendingFlows, flowRep.GetName())
+		}
+	}
+	for _, flowName := range pendingFlows {
 		flowRep, exists := fb.flowReps[flowName]
 		if !exists {
 			return fmt.Errorf("flow '%s' not found", flowName)
